@@ -25,6 +25,7 @@ import (
 	"sort"
 	"strings"
 	"sync"
+	"time"
 
 	"sigs.k8s.io/yaml"
 
@@ -284,6 +285,15 @@ func c19IndexKey(repoURL string) (string, string) {
 // c19TmpBase prefers a memory file system: DownloadTo writes through fileutil.AtomicWriteFile,
 // which is slow on a disk-backed /tmp
 func c19TmpBase() string {
+	// scratch directories of earlier runs (the runner has no exit hook): drop those older than an hour
+	for _, base := range []string{"/dev/shm", os.TempDir()} {
+		old, _ := filepath.Glob(filepath.Join(base, "hx-c19-*"))
+		for _, d := range old {
+			if fi, err := os.Stat(d); err == nil && time.Since(fi.ModTime()) > time.Hour {
+				os.RemoveAll(d)
+			}
+		}
+	}
 	if fi, err := os.Stat("/dev/shm"); err == nil && fi.IsDir() {
 		if f, err := os.CreateTemp("/dev/shm", "hx-probe-"); err == nil {
 			f.Close()
@@ -403,7 +413,7 @@ func c19ChartRef(r *rand.Rand, scheme, host, path string) (string, string) {
 
 func (*c19) Generate(r *rand.Rand, i int) any {
 	kinds := []string{"getter", "getter", "getter", "download", "download", "locate", "locate", "pull", "manager", "manager", "index"}
-	return c19Gen(r, kinds[r.Intn(len(kinds))])
+	return c19Normalize(c19Gen(r, kinds[r.Intn(len(kinds))]))
 }
 
 func c19Gen(r *rand.Rand, kind string) c19Case {
@@ -455,6 +465,12 @@ func c19Gen(r *rand.Rand, kind string) c19Case {
 			s, h, p = c19RepoURL(r)
 			if h == host {
 				h = "second." + h
+			}
+			// entries must stay distinct under urlutil.Equal (findChartURL ranges over a map)
+			for _, prev := range c.Repos {
+				if downloader.VerifURLEqual(prev.URL, s+"://"+h+p) {
+					h = fmt.Sprintf("r%d.", k) + strings.TrimPrefix(h, "ru:rp@")
+				}
 			}
 		}
 		tag := fmt.Sprintf("r%d", k)
@@ -583,7 +599,7 @@ func c19MaybeRedirect(r *rand.Rand, c *c19Case, href string) {
 func (*c19) Decode(raw json.RawMessage) (any, error) {
 	var c c19Case
 	err := json.Unmarshal(raw, &c)
-	return c, err
+	return c19Normalize(c), err
 }
 
 func (*c19) Exhaustive(tier string) []any {
@@ -660,8 +676,37 @@ func c19GetterOpts(os []c19Opt) []getter.Option {
 	return out
 }
 
+// Manager.Update refreshes every cached index from the server.  Two entries whose index URL
+// has the same host and path get the same document from the capture server, so they are
+// given the same URL list up front (otherwise the cache the run ends up with differs from
+// the one the case describes).
+func c19Normalize(c c19Case) c19Case {
+	if c.Kind != "manager" {
+		return c
+	}
+	served := map[string][]string{}
+	for _, rp := range c.Repos {
+		if k, _ := c19IndexKey(rp.URL); k != "" {
+			served[k] = rp.URLs
+		}
+	}
+	if len(c.AdhocURLs) > 0 && c.DepRepo != "" && !strings.HasPrefix(c.DepRepo, "@") {
+		if k, _ := c19IndexKey(c.DepRepo); k != "" {
+			served[k] = c.AdhocURLs
+		}
+	}
+	repos := append([]c19Repo(nil), c.Repos...)
+	for i := range repos {
+		if k, _ := c19IndexKey(repos[i].URL); k != "" {
+			repos[i].URLs = served[k]
+		}
+	}
+	c.Repos = repos
+	return c
+}
+
 func (p *c19) Execute(ci any) (res any) {
-	c := ci.(c19Case)
+	c := c19Normalize(ci.(c19Case))
 	e := c19GetEnv()
 	obs := c19Obs{Parse: map[string]c19URL{}, Tab: map[string]string{}}
 	work, _ := os.MkdirTemp(e.root, "case-")
